@@ -434,6 +434,60 @@ func init() {
 			}
 			panic(unsupported("vFmtInt: no integer in opaque string"))
 		},
+		// vFmtIntAt(s string, k int) int: k-th integer argument of an opaque formatted / structured string
+		"vFmtIntAt": func(in *Interp, st *State, fr *Frame, fn *ssa.Function, args []Value) Value {
+			s := args[0].(StrV)
+			k := int(constI64(args[1], "vFmtIntAt index"))
+			var ints []*Term
+			if c, ok := concStr(s); ok {
+				for i := 0; i < len(c); {
+					if c[i] >= '0' && c[i] <= '9' {
+						j := i
+						for j < len(c) && c[j] >= '0' && c[j] <= '9' {
+							j++
+						}
+						n, _ := strconv.Atoi(c[i:j])
+						ints = append(ints, IntC(int64(n)))
+						i = j
+						continue
+					}
+					i++
+				}
+			} else if ps, ok := partsOf(s); ok {
+				for _, p := range ps {
+					if p.Num != nil {
+						ints = append(ints, p.Num)
+					} else {
+						for i := 0; i < len(p.Lit); {
+							if p.Lit[i] >= '0' && p.Lit[i] <= '9' {
+								j := i
+								for j < len(p.Lit) && p.Lit[j] >= '0' && p.Lit[j] <= '9' {
+									j++
+								}
+								n, _ := strconv.Atoi(p.Lit[i:j])
+								ints = append(ints, IntC(int64(n)))
+								i = j
+								continue
+							}
+							i++
+						}
+					}
+				}
+			} else if s.Fmt != nil {
+				for _, a := range s.Fmt.Args {
+					if iv, ok := a.(IfaceV); ok {
+						a = iv.V
+					}
+					if t, ok := a.(*Term); ok && t.Sort == SInt {
+						ints = append(ints, t)
+					}
+				}
+			}
+			if k >= len(ints) {
+				panic(unsupported("vFmtIntAt: fewer integers than asked for"))
+			}
+			return ints[k]
+		},
 		// vModelPanic(msg string): a stub models a runtime panic of the code it replaces (reported like a real panic)
 		"vModelPanic": func(in *Interp, st *State, fr *Frame, fn *ssa.Function, args []Value) Value {
 			msg := mustStr(args[0], "vModelPanic")
